@@ -46,6 +46,7 @@ func classify(r *sctree.Runner, t *sctree.Tree) (bool, []string) {
 	add(r.AbandonedTxnSeen, "abandoned-txn")
 	add(r.AbandonedBlockSeen, "abandoned-block")
 	add(r.Hits > 0, "has-hits")
+	add(r.MutatedAfterGet > 0, "caller-mutated-returned-value")
 	nt := (t.HasFork() || t.MultiDepthKey()) && r.AncestorThenDescendant
 	return nt, cls
 }
@@ -54,7 +55,12 @@ func TestNeverWrong(t *testing.T) {
 	ev.Rapid(t, 8000, 80000)
 	rapid.Check(t, func(rt *rapid.T) {
 		tree := sctree.Gen(rt, sctree.Params{MaxBlocks: gen.Pick(rt, []int{4, 8, 16, 40}, "maxblocks"), MaxKeys: 4, Forks: true, Gaps: true, Abandoned: true, Twice: true})
-		r := sctree.NewRunner(rt, tree, hooks)
+		h := hooks
+		if gen.Chance(rt, 35, "mutablevalues") {
+			// callers that modify in place what a lookup handed them (they own it) must not change any later answer
+			h = sctree.MutValHooks()
+		}
+		r := sctree.NewRunner(rt, tree, h)
 		r.Run(gen.Uniform(rt, 10, 40+4*len(tree.Blocks), "nsteps"))
 		nt, cls := classify(r, tree)
 		b, _ := json.Marshal(tree.Blocks)
